@@ -43,7 +43,21 @@ The subset (anything else makes the FUNCTION not translatable — never an excep
                 as `effects` (recorded, by their source text, in the order of execution), `continue` in a
                 loop-body slice.
   per target    `predicates`: expressions that are taken as Boolean inputs (class relations of
-                `_maybe_promote`), matched by their source text.
+                `_maybe_promote`, `path not in exceptions`), matched by their source text.
+                `opreds`: properties of OBJECTS that are Boolean inputs — `isinstance(o, Cls)`, truthiness of `o`
+                (`not o`, `if o`), `o is None`, `a is b` — keyed by the object, not by the name of the local.
+                `acalls`: calls whose RESULT is an input: the call is recorded and yields a new object (`child =
+                self.ayns.get_child(…)`, `merged = child.ayns.on_merge(…)`, `super().ayns.on_merge_impl(…)`) which
+                may carry a state (its flags are then a parameter `p_<tag>`) and predicates.
+                `effects` with `canonical`: recorded calls are written as `<object>.<method>(<args>)` where an
+                argument is the name of the object / loop key / local function it evaluates to, a constant, or `_`
+                (anything outside the subset: `path + [key]`, f-strings) — independent of the names of locals.
+                `avalues`: the plain value an object stands for where one is needed (`str(other)`, `self._func = other`).
+                `havoc`: a `for` loop that is abstracted; the truthiness of the named locals afterwards is an input.
+                `nested`: the target is a local function (closure) of the method; `slice='for_body'` with `loop_vars`.
+  second batch  `isinstance(x, str)`; `try: x = e / return e  except AttributeError: x = h / return h` (a guarded
+                read, `pyCatchAttr`); local `def` (only passed on); `for x in (<constants>)` is unrolled;
+                `setattr(o, '<const>', v)`; `'a' + 'b'` on constants; `[]`.
 """
 import os, sys, ast, json, hashlib, importlib, inspect, types, traceback, builtins as _builtins
 
@@ -79,6 +93,8 @@ class DictOf:       # `o.__dict__` (appears in recorded effects only)
     def __init__(self, recv): self.recv = recv
 class Opaque:       # a parameter the target declares as unused
     def __init__(self, name): self.name = name
+class Tok:          # a value that is only passed on (a loop key, a closure): rendered by its name in recorded calls
+    def __init__(self, name): self.name = name
 
 
 def lit(v):
@@ -104,6 +120,8 @@ class ObjState:
         o = dict(self.over); o[attr] = val
         return ObjState(self.base, self.cls, o)
     def lean(self):
+        if self.base is None:
+            raise NT('the state of an object that is only passed on is used')
         s = self.base
         for a in sorted(self.over):
             s = f'(Obj.set {s} {json.dumps(a)} {lean_of(self.over[a])})'
@@ -290,9 +308,50 @@ TARGETS = [
 ]
 
 
+FUNC = 'awesomeyaml.nodes.function'
+LIST = 'awesomeyaml.nodes.list'
+TARGETS += [
+    dict(name='ayns_explicit_delete', module=NODE, cls='ConfigNode', ns='ayns', func='explicit_delete', kind='value',
+         params=[('self', 'obj:ConfigNode')], model='Flags.del'),
+    dict(name='require_all_new_leaf', module=NODE, cls='ConfigNode', ns='ayns', func='_require_all_new', kind='value',
+         params=[('self', 'obj:ConfigNode'), ('path', 'ignored'), ('reason', 'ignored'), ('exceptions', 'pv'), ('include_self', 'pv')],
+         predicates=[('path not in exceptions', 'not_excepted'), ('path in exceptions', 'excepted')], model='reqNew (leaf)'),
+    dict(name='merge_none', module=NODE, cls='ConfigNode', ns='ayns', func='merge', kind='refobj',
+         params=[('self', 'obj:ConfigNode'), ('other', 'const:None')], model='the first stage of a fold: eNew of the root'),
+    dict(name='func_on_merge_impl', module=FUNC, cls='FunctionNode', ns='ayns', func='on_merge_impl', kind='refobj', state_of='self',
+         params=[('self', 'obj:FunctionNode'), ('prefix', 'ignored'), ('other', 'obj:ConfigNode')],
+         avalues={'other': 'p_other_str'}, opreds=[(('isinstance', 'other', 'str'), 'other_is_str')],
+         acalls=[dict(recv='super', method='on_merge_impl', tag='fallthrough', state=False)],
+         effects=['clear'], canonical=True, skip=['_propagate_implicit_values'], model='funcMerge'),
+    dict(name='keep_if_exists', module=LIST, cls='ConfigList', ns='ayns', func='on_merge_impl', nested='keep_if_exists', kind='valeff',
+         params=[('self', 'objref:ConfigList'), ('path', 'tok'), ('node', 'obj:ConfigNode')], closure=['self'],
+         acalls=[dict(recv='self', method='get_first_not_missing_node', tag='current', state=True)], model='keepIfExists'),
+    dict(name='maybe_keep', module=COMPOSED, cls='ComposedNode', ns='ayns', func='on_merge_impl', nested='maybe_keep', kind='valeff',
+         params=[('other', 'objref:ComposedNode'), ('node_path', 'tok'), ('node', 'obj:ConfigNode')], closure=['other'],
+         acalls=[dict(recv='other', method='get_first_not_missing_node', tag='other_node', state=True)], model='maybeKeep'),
+    dict(name='list_on_merge_impl', module=LIST, cls='ConfigList', ns='ayns', func='on_merge_impl', kind='refeff',
+         params=[('self', 'objref:ConfigList'), ('prefix', 'ignored'), ('other', 'obj:ConfigNode')],
+         havoc={'_missing_keys': 'keys_invalid'},
+         opreds=[(('isinstance', 'other', 'dict'), 'other_is_dict'), (('isinstance', 'other', 'ComposedNode'), 'other_composed')],
+         acalls=[dict(recv='super', method='on_merge_impl', tag='fallthrough', state=False)],
+         effects=['filter_nodes'], canonical=True, model='listMerge (validation decision, pre-filter, fall through)'),
+    dict(name='key_loop', module=COMPOSED, cls='ComposedNode', ns='ayns', func='on_merge_impl', kind='effects', slice='for_body',
+         loop_vars=['key', 'value'],
+         params=[('self', 'objref:ComposedNode'), ('key', 'tok'), ('value', 'obj:ConfigNode')], free=['other', 'path'],
+         acalls=[dict(recv='self', method='get_child', tag='child', state=False),
+                 dict(recv='child', method='on_merge', tag='merged', state=True)],
+         opreds=[(('isnone', 'child'), 'child_missing'), (('isinstance', 'child', 'ComposedNode'), 'child_composed'),
+                 (('truthy', 'merged'), 'merged_truthy'), (('same', 'child', 'merged'), 'merged_is_child')],
+         effects=['set_child', 'remove_child', '_require_all_new'], canonical=True, model='mergeStep'),
+]
+
 TIES = {'notnone_or': ['TIE_notnone_or', 'TIE_notnone_or_getD', 'TIE_notnone_or_or'], 'ayns_priority': ['TIE_ePrio'], 'ayns_weak': ['TIE_weak'], 'ayns_force': ['TIE_force'], 'ayns_delete': ['TIE_eDelF', 'TIE_eDel'], 'ayns_allow_new': ['TIE_eNew'], 'ayns_safe': ['TIE_eSafe'], 'ayns_has_priority_over': ['TIE_hasPrio'], 'replace_self': ['TIE_replaceSelfFlags'], 'replace_other': ['TIE_replaceOtherFlags', 'TIE_mergeSafe'], 'on_merge_impl': ['TIE_leafRuleFlags', 'TIE_leafRule'], 'get_child_kwargs': ['TIE_childKwF', 'TIE_childKw', 'TIE_childKw_child'], 'stream_get_child_kwargs': ['TIE_childKw'], 'propagate_child': ['TIE_propagateChild', 'TIE_updFlags', 'TIE_flagsChanged'], 'validate_index': ['TIE_validateIndex'], 'maybe_promote': ['TIE_maybePromote']}
+TIES2 = {'ayns_explicit_delete': ['TIE_explicitDelete'], 'require_all_new_leaf': ['TIE_reqNewLeaf'],
+         'merge_none': ['TIE_mergeNone'], 'func_on_merge_impl': ['TIE_funcDecision', 'TIE_funcMerge'],
+         'keep_if_exists': ['TIE_keepIfExists'], 'maybe_keep': ['TIE_maybeKeep'],
+         'list_on_merge_impl': ['TIE_listMerge_decision'], 'key_loop': ['TIE_mergeStep_decision']}
 for _t in TARGETS:
-    _t['ties'] = TIES[_t['name']]
+    _t['ties'] = TIES.get(_t['name'], []) + TIES2.get(_t['name'], [])
 
 
 def lean_signature(t):
@@ -304,9 +363,19 @@ def lean_signature(t):
         elif kind == 'pv': bs.append(f'(p_{p} : PV)')
     for p in t.get('lens', []):
         bs.append(f'(len_{p} : Nat)')
+    for a in t.get('acalls', []):
+        if a.get('state'):
+            bs.append(f"(p_{a['tag']} : Obj)")
+    for v in t.get('avalues', {}).values():
+        bs.append(f'({v} : PV)')
     for _, b in t.get('predicates', []):
         bs.append(f'({b} : Bool)')
-    ty = {'value': 'PV', 'obj': 'Res Obj', 'refobj': 'Res RefRes', 'locals': 'Res (Obj × PV × List String)'}[t['kind']]
+    for _, b in t.get('opreds', []):
+        bs.append(f'({b} : Bool)')
+    for b in t.get('havoc', {}).values():
+        bs.append(f'({b} : Bool)')
+    ty = {'value': 'PV', 'obj': 'Res Obj', 'refobj': 'Res RefRes', 'locals': 'Res (Obj × PV × List String)',
+          'valeff': 'Res (PV × List String)', 'effects': 'Res (List String)', 'refeff': 'Res (String × List String)'}[t['kind']]
     return ' '.join(bs), ty
 
 
@@ -316,7 +385,11 @@ def arg_names(t):
         if kind.split(':')[0] in ('obj', 'optobj', 'pv'):
             out.append(f'p_{p}')
     out += [f'len_{p}' for p in t.get('lens', [])]
+    out += [f"p_{a['tag']}" for a in t.get('acalls', []) if a.get('state')]
+    out += list(t.get('avalues', {}).values())
     out += [b for _, b in t.get('predicates', [])]
+    out += [b for _, b in t.get('opreds', [])]
+    out += list(t.get('havoc', {}).values())
     return out
 
 
@@ -325,7 +398,7 @@ def arg_names(t):
 # ----------------------------------------------------------------------------------------------------
 
 BUILTIN_NAMES = {'abs', 'len', 'min', 'max', 'isinstance', 'hasattr', 'getattr', 'int', 'list', 'type', 'issubclass',
-                 'enumerate', 'bool'}
+                 'enumerate', 'bool', 'str', 'dict', 'setattr'}
 CMP = {ast.Eq: 'pyEq', ast.NotEq: 'pyNe', ast.Lt: 'pyLt', ast.LtE: 'pyLe', ast.Gt: 'pyGt', ast.GtE: 'pyGe'}
 PYCMP = {ast.Eq: lambda a, b: a == b, ast.NotEq: lambda a, b: a != b, ast.Lt: lambda a, b: a < b,
          ast.LtE: lambda a, b: a <= b, ast.Gt: lambda a, b: a > b, ast.GtE: lambda a, b: a >= b}
@@ -405,50 +478,70 @@ class Translator:
                 env[name] = E(f'p_{name}')
             elif kind == 'ignored':
                 env[name] = Opaque(name)
+            elif kind == 'tok':
+                env[name] = Tok(name)
+            elif kind.startswith('objref:'):
+                store[name] = ObjState(None, self.resolve_class(fi.mod, kind[7:]))
+                env[name] = O(name)
             elif kind.startswith('const:'):
                 env[name] = K(ast.literal_eval(kind[6:]))
             else:
                 raise NT(f'unknown parameter kind {kind}')
+        if t.get('nested'):
+            inner = [n for n in ast.walk(fn) if isinstance(n, ast.FunctionDef) and n.name == t['nested'] and n is not fn]
+            if len(inner) != 1:
+                raise NT(f"nested function `{t['nested']}` not found")
+            fn = inner[0]
+            a = fn.args
         if t.get('slice') == 'for_body':
-            loops = [s for s in fn.body if isinstance(s, ast.For)]
+            want = t.get('loop_vars') or [t['loop_var']]
+            def targets(loop):
+                if isinstance(loop.target, ast.Name): return [loop.target.id]
+                if isinstance(loop.target, ast.Tuple) and all(isinstance(e, ast.Name) for e in loop.target.elts):
+                    return [e.id for e in loop.target.elts]
+                return None
+            loops = [s for s in fn.body if isinstance(s, ast.For) and targets(s) == want and not s.orelse]
             if len(loops) != 1:
-                raise NT('expected exactly one top-level for loop')
-            loop = loops[0]
-            if not (isinstance(loop.target, ast.Name) and loop.target.id == t['loop_var']) or loop.orelse:
-                raise NT(f"the loop variable is not `{t['loop_var']}`")
+                raise NT(f'expected exactly one top-level for loop over {want}')
             for name, kind in declared.items():
                 bind(name, kind)
-            body = loop.body
+            body = loops[0].body
         else:
             names = [x.arg for x in a.args]
-            if names != [p for p, _ in t['params']]:
-                raise NT(f"parameter list {names} differs from the declared one {[p for p, _ in t['params']]}")
+            own = [p for p, _ in t['params'] if p not in t.get('closure', [])]
+            if names != own:
+                raise NT(f"parameter list {names} differs from the declared one {own}")
             for name, kind in declared.items():
                 bind(name, kind)
             body = fn.body
         ctx = Ctx(env, store)
         self.leaves = 0
         kind = t['kind']
-        def leaf_value(v, c):
-            return self.leaf(c, lean_of(v), kind)
+        effs_of = lambda c: '[' + ', '.join(json.dumps(e) for e in c.effects) + ']'
         def leaf_ret(v, c):
             if kind == 'value':
-                return leaf_value(v, c)
+                return self.leaf(c, lean_of(v), kind)
+            if kind == 'valeff':
+                return self.leaf(c, f'({lean_of(v)}, {effs_of(c)})', kind)
+            if kind == 'effects':
+                raise NT('return inside the loop body')
             if not isinstance(v, O):
                 raise NT('the function does not return one of its object arguments')
-            st = c.store[v.name]
+            if kind == 'refeff':
+                return self.leaf(c, f'({json.dumps(v.name)}, {effs_of(c)})', kind)
+            st = c.store[t['state_of']] if t.get('state_of') else c.store[v.name]
             if kind == 'obj':
                 return self.leaf(c, st.lean(), kind)
-            effs = '[' + ', '.join(json.dumps(e) for e in c.effects) + ']'
-            return self.leaf(c, f'{{ ref := {json.dumps(v.name)}, state := {st.lean()}, effects := {effs} }}', kind)
+            return self.leaf(c, f'{{ ref := {json.dumps(v.name)}, state := {st.lean()}, effects := {effs_of(c)} }}', kind)
         def leaf_end(c):
             if kind == 'locals':
                 if t['out_local'] not in c.env:
                     raise NT(f"local `{t['out_local']}` is not assigned on every path")
-                effs = '[' + ', '.join(json.dumps(e) for e in c.effects) + ']'
-                return self.leaf(c, f"({c.store[t['out_obj']].lean()}, {lean_of(c.env[t['out_local']])}, {effs})", kind)
+                return self.leaf(c, f"({c.store[t['out_obj']].lean()}, {lean_of(c.env[t['out_local']])}, {effs_of(c)})", kind)
+            if kind == 'effects':
+                return self.leaf(c, effs_of(c), kind)
             return leaf_ret(K(None), c)
-        if kind == 'locals':
+        if kind in ('locals', 'effects'):
             def no_return(v, c):
                 raise NT('return inside the loop body')
             tree = self.exec_block(fi, body, ctx, no_return, leaf_end, leaf_end)
@@ -514,7 +607,7 @@ class Translator:
             v = self.binop(s.op, self.eval(fi, s.target, ctx), self.eval(fi, s.value, ctx))
             return cont(self.assign(fi, s.target, v, ctx))
         if isinstance(s, ast.If):
-            c = self.eval(fi, s.test, ctx)
+            c = self.truth(self.eval(fi, s.test, ctx), 'if')
             if isinstance(c, K):
                 return self.exec_block(fi, (s.body if c.v else s.orelse) + rest, ctx, k_ret, k_end, k_continue)
             cl = lean_of(c)
@@ -534,7 +627,74 @@ class Translator:
                 raise NT(f'raise `{ast.unparse(s)[:60]}`')
             self.leaves += 1
             return ('leaf', f'(.exc {json.dumps(exc.id)})')
+        if isinstance(s, ast.FunctionDef):          # a local function: only ever passed on (or called where the value does not matter)
+            return cont(ctx.with_env(s.name, Tok(s.name)))
+        if isinstance(s, ast.Try):
+            return self.exec_try(fi, s, ctx, k_ret, cont)
+        if isinstance(s, ast.For):
+            return self.exec_for(fi, s, rest, ctx, k_ret, k_end, k_continue)
         raise NT(f'statement `{type(s).__name__}` ({ast.unparse(s).splitlines()[0][:60]})')
+
+    def exec_try(self, fi, s, ctx, k_ret, cont):
+        """`try: x = e  except AttributeError: x = h` (or `return e` / `return h`): a guarded read"""
+        if s.orelse or s.finalbody or len(s.handlers) != 1 or len(s.body) != 1 or len(s.handlers[0].body) != 1:
+            raise NT('try statement (only `try: <one statement> except AttributeError: <one statement>`)')
+        h = s.handlers[0]
+        if not (isinstance(h.type, ast.Name) and h.type.id == 'AttributeError'):
+            raise NT('try statement with a handler other than `except AttributeError`')
+        b, hb = s.body[0], h.body[0]
+        if isinstance(b, ast.Return) and isinstance(hb, ast.Return) and b.value is not None and hb.value is not None:
+            v = E(f'(pyCatchAttr {lean_of(self.eval(fi, b.value, ctx))} {lean_of(self.eval(fi, hb.value, ctx))})')
+            return k_ret(v, ctx)
+        if (isinstance(b, ast.Assign) and isinstance(hb, ast.Assign) and len(b.targets) == 1 and len(hb.targets) == 1
+                and isinstance(b.targets[0], ast.Name) and isinstance(hb.targets[0], ast.Name) and b.targets[0].id == hb.targets[0].id):
+            v = E(f'(pyCatchAttr {lean_of(self.eval(fi, b.value, ctx))} {lean_of(self.eval(fi, hb.value, ctx))})')
+            return cont(self.assign(fi, b.targets[0], v, ctx))
+        raise NT('try statement (body and handler must assign the same local or both return)')
+
+    def exec_for(self, fi, s, rest, ctx, k_ret, k_end, k_continue):
+        t = self.cur
+        after = lambda c: self.exec_block(fi, rest, c, k_ret, k_end, k_continue)
+        if s.orelse:
+            raise NT('for … else')
+        # (a) a loop over a literal tuple/list of constants is unrolled
+        if isinstance(s.iter, (ast.Tuple, ast.List)) and isinstance(s.target, ast.Name) and \
+                all(isinstance(e, ast.Constant) for e in s.iter.elts) and len(s.iter.elts) <= 8:
+            items = [K(e.value) for e in s.iter.elts]
+            def run(i, c):
+                if i == len(items):
+                    return after(c)
+                nxt = lambda c2: run(i + 1, c2)
+                return self.exec_block(fi, s.body, c.with_env(s.target.id, items[i]), k_ret, nxt, nxt)
+            return run(0, ctx)
+        # (b) a loop the target declares as abstract: its outcome is an input
+        hav = t.get('havoc')
+        if hav:
+            stored = set()
+            for n in ast.walk(s):
+                if isinstance(n, ast.Name) and isinstance(n.ctx, ast.Store):
+                    stored.add(n.id)
+                if isinstance(n, ast.Call) and isinstance(n.func, ast.Attribute) and isinstance(n.func.value, ast.Name) \
+                        and n.func.attr in ('append', 'add', 'extend', 'update') and n.func.value.id in ctx.env:
+                    stored.add(n.func.value.id)
+            def names_used(st):
+                if isinstance(st, ast.Raise):
+                    return set()
+                out = set()
+                for ch in ast.iter_child_nodes(st):
+                    out |= names_used(ch)
+                if isinstance(st, ast.Name):
+                    out.add(st.id)
+                return out
+            later = set().union(*[names_used(st) for st in rest]) if rest else set()
+            bad = [x for x in stored if x in later and x not in hav]
+            if bad:
+                raise NT(f'the abstracted loop also sets {bad}')
+            c = ctx
+            for name, b in hav.items():
+                c = c.with_env(name, E(f'(.bool {b})', total=True))
+            return after(c)
+        raise NT(f'statement `For` ({ast.unparse(s).splitlines()[0][:60]})')
 
     @staticmethod
     def _atom(text):
@@ -542,7 +702,7 @@ class Translator:
 
     def assign(self, fi, target, v, ctx):
         if isinstance(target, ast.Name):
-            if isinstance(v, (K, E, O, OO, T)):
+            if isinstance(v, (K, E, O, OO, T, Tok)):
                 return ctx.with_env(target.id, v).with_guard(v)
             raise NT(f'assignment of a {type(v).__name__} to a local')
         if isinstance(target, (ast.Tuple, ast.List)):
@@ -555,6 +715,8 @@ class Translator:
             o = self.eval(fi, target.value, ctx)
             if not isinstance(o, O):
                 raise NT(f'assignment to an attribute of something that is not an object parameter: `{ast.unparse(target)}`')
+            if isinstance(v, O) and v.name in self.cur.get('avalues', {}):
+                v = E(self.cur['avalues'][v.name])
             if not isinstance(v, (K, E)):
                 raise NT(f'a {type(v).__name__} is stored in an attribute')
             return ctx.with_obj(o.name, ctx.store[o.name].set(target.attr, v)).with_guard(v)
@@ -575,6 +737,10 @@ class Translator:
             if isinstance(c, K):
                 return self.eval_effectful(fi, node.body if c.v else node.orelse, ctx, k)
         if isinstance(node, ast.Call):
+            m = self.match_acall(fi, node, ctx)
+            if m:
+                v, c = self.do_acall(fi, m[0], m[1], node, ctx)
+                return k(v, c)
             try:
                 return k(self.eval(fi, node, ctx), ctx)
             except NT as e:
@@ -583,10 +749,81 @@ class Translator:
             return self.call_stmt(fi, node, ctx, k)
         return k(self.eval(fi, node, ctx), ctx)
 
+    # ------------------------------------------------------------------ abstract calls, recorded calls
+    def recv_name(self, fi, node, ctx):
+        """the object a method is called on: `x.m`, `x.ayns.m`, `super().m`, `super().ayns.m`"""
+        if isinstance(node, ast.Attribute) and node.attr == 'ayns':
+            node = node.value
+        if isinstance(node, ast.Call) and isinstance(node.func, ast.Name) and node.func.id == 'super' and not node.args:
+            return 'super'
+        try:
+            v = self.eval(fi, node, ctx)
+        except NT:
+            return None
+        if isinstance(v, (O, OO)):
+            return v.name
+        if isinstance(v, DictOf):
+            return v.recv.name + '.__dict__'
+        return None
+
+    def render_arg(self, fi, node, ctx):
+        try:
+            v = self.eval(fi, node, ctx)
+        except NT:
+            return '_'
+        if isinstance(v, (O, OO, Tok)):
+            return v.name
+        if isinstance(v, K):
+            return repr(v.v)
+        return '_'
+
+    def render_call(self, fi, recv, call, ctx):
+        parts = [self.render_arg(fi, a, ctx) for a in call.args]
+        parts += [f'{kw.arg}={self.render_arg(fi, kw.value, ctx)}' for kw in call.keywords]
+        return f"{recv}.{call.func.attr}({', '.join(parts)})"
+
+    def match_acall(self, fi, call, ctx):
+        """a call the target declares as abstract: its result is an input (an object with declared predicates)"""
+        t = self.cur
+        if not t.get('acalls') or not isinstance(call.func, ast.Attribute):
+            return None
+        recv = self.recv_name(fi, call.func.value, ctx)
+        for a in t['acalls']:
+            if a['recv'] == recv and a['method'] == call.func.attr:
+                return a, recv
+        return None
+
+    def do_acall(self, fi, a, recv, call, ctx):
+        c = ctx.with_effect(self.render_call(fi, recv, call, ctx)) if a.get('record', True) else ctx
+        if a.get('tag') is None:
+            return K(None), c
+        cls = self.resolve_class(fi.mod, a.get('cls', 'ConfigNode'))
+        c = c.with_obj(a['tag'], ObjState(f"p_{a['tag']}" if a.get('state') else None, cls))
+        return O(a['tag']), c
+
+    def opred(self, key):
+        for k2, b in self.cur.get('opreds', []):
+            if tuple(k2) == tuple(key):
+                return E(f'(.bool {b})', total=True)
+        return None
+
+    def truth(self, v, what):
+        """the value a test sees: an object only when its truthiness is a declared input"""
+        if isinstance(v, O):
+            r = self.opred(('truthy', v.name))
+            if r is None:
+                raise NT(f'truthiness of the object `{v.name}` ({what})')
+            return r
+        return v
+
     def call_stmt(self, fi, call, ctx, k):
         """a call whose effects matter: skip-listed, recorded effect, or inlined"""
         t = self.cur
         f = call.func
+        m = self.match_acall(fi, call, ctx)
+        if m:
+            v, c = self.do_acall(fi, m[0], m[1], call, ctx)
+            return k(v, c)
         if isinstance(f, ast.Attribute):
             recv = None
             try:
@@ -595,8 +832,17 @@ class Translator:
                 recv = None
             if isinstance(recv, (O, DictOf)) and f.attr in t.get('skip', []) and not call.args and not call.keywords:
                 return k(K(None), ctx)
+            if t.get('canonical') and f.attr in t.get('effects', []):
+                rn = self.recv_name(fi, f.value, ctx)
+                if rn is not None:
+                    return k(K(None), ctx.with_effect(self.render_call(fi, rn, call, ctx)))
             if isinstance(recv, (O, DictOf)) and f.attr in t.get('effects', []):
                 return k(K(None), ctx.with_effect(ast.unparse(call)))
+        if isinstance(f, ast.Name) and f.id == 'setattr' and len(call.args) == 3 and not call.keywords and 'setattr' not in ctx.env:
+            o, nm, v = (self.eval(fi, x, ctx) for x in call.args)
+            if isinstance(o, O) and isinstance(nm, K) and isinstance(nm.v, str) and isinstance(v, (K, E)):
+                return k(K(None), ctx.with_obj(o.name, ctx.store[o.name].set(nm.v, v)).with_guard(v))
+            raise NT(f'`{ast.unparse(call)[:60]}`')
         callee = self.eval(fi, f, ctx)
         if isinstance(callee, Ref) and isinstance(callee.obj, types.FunctionType):
             cfi, recv = self.src.function(callee.obj), None
@@ -731,6 +977,7 @@ class Translator:
         if isinstance(node, ast.UnaryOp):
             v = self.eval(fi, node.operand, ctx)
             if isinstance(node.op, ast.Not):
+                v = self.truth(v, 'not')
                 if isinstance(v, K): return K(not v.v)
                 return E(f'(pyNot {lean_of(v)})')
             if isinstance(node.op, ast.USub):
@@ -771,7 +1018,7 @@ class Translator:
             if isinstance(d, E) and isinstance(k, K) and isinstance(k.v, str):
                 return E(f'(pyGetItem {d.lean} {json.dumps(k.v)})')
             raise NT(f'subscript `{ast.unparse(node)}` (only dicts with constant string keys)')
-        if isinstance(node, ast.Tuple):
+        if isinstance(node, (ast.Tuple, ast.List)):
             return T([self.eval(fi, e, ctx) for e in node.elts])
         raise NT(f'expression `{type(node).__name__}` ({ast.unparse(node)[:60]})')
 
@@ -802,6 +1049,8 @@ class Translator:
                 return Bound(recv, m)
             if attr in st.over:
                 return st.over[attr]
+            if st.base is None:
+                raise NT(f'`{recv.name}.{attr}`: the state of `{recv.name}` is not an input of this target')
             return E(f'({st.base} {json.dumps(attr)})')
         if isinstance(recv, OO):
             return E(f'(optAttr p_{recv.name} {json.dumps(attr)})')
@@ -889,6 +1138,15 @@ class Translator:
                 return E(f'(pyGetAttrD {ctx.store[o.name].lean()} {json.dumps(a.v)} {lean_of(self.eval(fi, node.args[2], ctx))})')
             raise NT(f'`{ast.unparse(node)}`')
         args = [self.eval(fi, a, ctx) for a in node.args]
+        if name == 'isinstance' and len(args) == 2 and isinstance(args[0], (O, OO)) and isinstance(args[1], Ref) and isinstance(args[1].obj, type):
+            r = self.opred(('isinstance', args[0].name, args[1].obj.__name__))
+            if r is None:
+                raise NT(f'`{ast.unparse(node)}` is not an input of this target')
+            return r
+        if name == 'isinstance' and len(args) == 2 and isinstance(args[1], Ref) and args[1].obj is str and isinstance(args[0], (K, E)):
+            return E(f'(pyIsStr {lean_of(args[0])})')
+        if name == 'str' and len(args) == 1 and isinstance(args[0], O) and args[0].name in t.get('avalues', {}):
+            return E(t['avalues'][args[0].name])
         if name == 'abs' and len(args) == 1:
             if isinstance(args[0], K) and isinstance(args[0].v, int): return K(abs(args[0].v))
             return E(f'(pyAbs {lean_of(args[0])})')
@@ -923,6 +1181,14 @@ class Translator:
                 if isinstance(left, OO) and single(right) and right.v is None:
                     r = E(f'(optIsNone p_{left.name})')
                     r = E(f'(pyNot {r.lean})') if neg else r
+                elif isinstance(left, O) and single(right) and right.v is None and self.opred(('isnone', left.name)) is not None:
+                    r = self.opred(('isnone', left.name))
+                    r = E(f'(pyNot {r.lean})', total=True) if neg else r
+                elif isinstance(left, O) and isinstance(right, O):
+                    r = self.opred(('same',) + tuple(sorted((left.name, right.name))))
+                    if r is None:
+                        raise NT(f'identity of `{left.name}` and `{right.name}` is not an input of this target')
+                    r = E(f'(pyNot {r.lean})', total=True) if neg else r
                 elif isinstance(left, O) and single(right):
                     r = K(neg)
                 elif single(left) and single(right):
@@ -962,6 +1228,8 @@ class Translator:
             raise NT(f'binary operator {type(op).__name__}')
         if isinstance(a, K) and isinstance(b, K) and all(isinstance(x.v, int) for x in (a, b)):
             return K(a.v + b.v if isinstance(op, ast.Add) else a.v - b.v)
+        if isinstance(op, ast.Add) and isinstance(a, K) and isinstance(b, K) and all(isinstance(x.v, str) for x in (a, b)):
+            return K(a.v + b.v)
         return E(f"({'pyAdd' if isinstance(op, ast.Add) else 'pySub'} {lean_of(a)} {lean_of(b)})")
 
     # ------------------------------------------------------------------ driver
